@@ -438,11 +438,36 @@ func (v *Vue) mergeStyles(staticStyle, boundStyle string) string {
 	return strings.Join(styles, "")
 }
 
+// splitStyleDeclarations splits a style string at the semicolons that separate declarations: a
+// semicolon inside parentheses or quotes (url(data:image/png;base64,...)) belongs to the value.
+func splitStyleDeclarations(style string) []string {
+	var parts []string
+	depth, quote, start := 0, byte(0), 0
+	for i := 0; i < len(style); i++ {
+		switch c := style[i]; {
+		case quote != 0:
+			if c == quote {
+				quote = 0
+			}
+		case c == '"' || c == '\'':
+			quote = c
+		case c == '(':
+			depth++
+		case c == ')' && depth > 0:
+			depth--
+		case c == ';' && depth == 0:
+			parts = append(parts, style[start:i])
+			start = i + 1
+		}
+	}
+	return append(parts, style[start:])
+}
+
 // styleKeys lists the property names declared in a style string, in order of first appearance.
 func styleKeys(style string) []string {
 	var keys []string
 	seen := map[string]bool{}
-	for _, part := range strings.Split(style, ";") {
+	for _, part := range splitStyleDeclarations(style) {
 		kv := strings.SplitN(strings.TrimSpace(part), ":", 2)
 		if len(kv) != 2 {
 			continue
@@ -464,7 +489,7 @@ func parseStyleMap(style string) map[string]string {
 	}
 
 	// Split by semicolon to get individual properties
-	parts := strings.Split(style, ";")
+	parts := splitStyleDeclarations(style)
 	for _, part := range parts {
 		part = strings.TrimSpace(part)
 		if part == "" {
